@@ -13,7 +13,7 @@ structure RunSt where
   /-- the implementation and the model disagreed earlier in this sequence -/
   diverged : Bool := false
 
-def stepLine (prop : String) (rs : RunSt) (line : String) (impl : Option Outcome) :
+def stepLine (prop : String) (rs : RunSt) (line : String) (impl : Option Outcome) (implMsg : String) :
     RunSt × Outcome × String :=
   let fields := (line.trimAscii.toString.splitOn " ").filter (· ≠ "")
   match fields with
@@ -22,8 +22,8 @@ def stepLine (prop : String) (rs : RunSt) (line : String) (impl : Option Outcome
       let (o, v) := abiOp fields impl
       (rs, o, v)
     else
-      let verdict := if rs.diverged then "ok" else judge prop rs.d fields impl
       let (d', o) := worldOp rs.d fields
+      let verdict := if rs.diverged then "ok" else judge prop rs.d fields impl o implMsg
       let div := if f == "reset" then false else rs.diverged || !(agree impl o)
       ({ d := d', diverged := div }, o, verdict)
   | [] => (rs, .okPlain, "ok")
@@ -36,7 +36,8 @@ partial def loop (prop : String) (ops impl : IO.FS.Stream) (out : IO.FS.Handle) 
     loop prop ops impl out st
   else
     let io := if il.isEmpty then none else parseOutcome il.trimAscii.toString
-    let (st', o, v) := stepLine prop st line io
+    let msg := match il.splitOn " # " with | _ :: m :: _ => m | _ => ""
+    let (st', o, v) := stepLine prop st line io msg
     out.putStrLn s!"{fmtOutcome o}\t{v}"
     loop prop ops impl out st'
 
